@@ -20,7 +20,7 @@
   Part 4 (`regex_*`, `site_table_*`): the regular expressions of `PatternParser` / `CppViewHelper` and the table of comparison sites
   are GENERATED from the source on every run (translate/gen_c08_regex.py, translate/gen_c08_sites.py: Generated/C08Regex.lean,
   Generated/C08Sites.lean; a new, changed or vanished site or an unknown regex opcode makes the translator fail = broken tie).
-  The hand-written table below is the audit the generated table records (132 sites incl. cpp_view_helper.py and
+  The hand-written table below is the audit the generated table records (183 sites incl. the string tests of the Jinja templates, sorted() / .sort() / min() / max() as order-by-spelling sites, cpp_view_helper.py and
   syntax/node/definition/*.py; verdicts in translate/c08_sites_audited.json).
 
   ## Every place where a string that can contain a user identifier is compared other than by `==` on whole names
@@ -60,6 +60,9 @@
   | py2cpp.py:1759 DeclClassVarNamePattern `\s+([\w\d_]+)\s+=` | first `ws word ws =` | yes for `<type> <name> = …` with a blank-free type: `fragment_class_var_name`; other shapes correspondence only |
   | py2cpp.py:1760,1761 CVarRelaySubPattern / CVarToSubPattern `(->|::|\.)(on|raw|…)\(\)$` | operator + WHOLE word + `()` | yes: `fragment_cvar_suffix` (stripped iff the method name IS the word; `xon()`, `draw()` untouched) |
   | cpp_view_helper.py:82,107 `var_type.startswith('const ')` | the C++ qualifier WITH its blank (since 448468e; before: bare `startswith('const')`, class `constant` was taken for a const type) | yes: a rendered type name contains no blank |
+  | statement_compound.py:632-650 `Class.depended_types` (and every `sorted()` / `.sort()` / `min()` / `max()`) | ORDER of a collection of names | the shipped code keeps declaration (dict insertion) order: equivariant; ordering by spelling (`sorted(sub_types.keys())`, a seeded mutation) is not — such calls are order-by-spelling sites of the generated table (only numeric `min(precedences)`, `max(0, …)` exist) |
+  | function/_method_body.j2:1-5 `return_type.startswith('Iterator<' / 'ItemsView<')` | the generic name WITH its `<` (since 3ee1aa1; before: bare prefix, a class `Iteratorx` became an iterator method) | yes: a class name contains no `<` |
+  | func_call/list_sort.j2 `(entry_name + '->') in entry_value`, `('(' + entry_name) in …`, `replace(entry_name, …)` | SUBSTRING tests / replacement with the lambda parameter name | NO: `cur` rewrites `curx` — known finding `list-sort-substring:output` (proposed/C08-list-sort-substring-replace.md) |
   | py2cpp.py:1757 ListSortKeyPattern, :1793,1858,1874 BlockParser calls | lambda text / bracket blocks | search only (real-code equivariance); BlockParser is property C18 |
 -/
 import Tranp.Lemmas.Scope
@@ -511,20 +514,25 @@ example : Regex.IdentMap swapAB ∧
 example : (Regex.CharSet.mk false [.range 'a' 'z', .range 'A' 'Z', .digit]).identClosed = false := by decide +kernel
 
 open Tranp.Generated.C08Sites in
-/-- The generated site table (every string-inspecting call / `in` / `re` use of the anchored files, cpp_view_helper.py and
-    syntax/node/definition/*.py, with the verdict of the audit) contains NO defective site: every site has a verdict that does
-    not depend on the spelling of user identifiers, and none is unaudited (the translator refuses unknown sites). -/
-theorem site_table_no_defect : ∀ s ∈ sites, s.verdict ≠ .defect := by
+/-- The generated site table (every string-inspecting call / `in` / `re` use / `sorted()`-like call of the anchored files,
+    cpp_view_helper.py, syntax/node/definition/*.py, and every string test of the Jinja templates, with the verdict of the
+    audit) contains exactly these defective sites — the substring tests of list_sort.j2 with the lambda parameter name
+    (reproduced on the real code, proposed/C08-list-sort-substring-replace.md, a listed known finding; the template calls itself a
+    limited conversion). The `Iterator` / `ItemsView` prefix tests of _method_body.j2 were repaired in 3ee1aa1. Every other site has
+    a verdict that does not depend on the spelling of user identifiers, and none is unaudited (the translator refuses unknown sites). -/
+theorem site_table_defects :
+    (sites.filter (fun s => s.verdict = .defect)).map (fun s => s.file) =
+      ["data/cpp/template/func_call/list_sort.j2", "data/cpp/template/func_call/list_sort.j2"] := by
   decide +kernel
 
 open Tranp.Generated.C08Sites in
 /-- REGRESSION (fixed 448468e): the table as it was before the repair — the two `startswith('const')` sites of
-    cpp_view_helper.py carried the verdict `defect`, and the statement above is false for such a table. -/
+    cpp_view_helper.py carried the verdict `defect`. -/
 example :
     let old : List Site := [
       ⟨"rogw/tranp/implements/cpp/view/cpp_view_helper.py", "CppViewHelper.Param.var_type_origin", "str.startswith", "self.var_type.startswith('const')", .defect⟩,
       ⟨"rogw/tranp/implements/cpp/view/cpp_view_helper.py", "CppViewHelper.VarType.annotated", "str.startswith", "var_type.startswith('const')", .defect⟩]
-    ¬ ∀ s ∈ old, s.verdict ≠ .defect := by
+    (old.filter (fun s => s.verdict = .defect)).length = 2 := by
   decide +kernel
 
 end Tranp.C08
